@@ -214,7 +214,6 @@ TWINS_REGEX: list[tuple[str, str, str, str, str]] = [
 DOCUMENTED_MISSES = {
     "seed-C08-r7-2": "count of an [EOF] array of fixed-size entries computed up front (a trailing partial entry dropped instead of raising): C08 sets "
                      "to-end-of-stream arrays aside in its statement; C09.R1 reports the seek to the end of the stream the change introduces",
-    "seed-C10-2": "integer-suffix ladder of the expression tokenizer: which literal spellings are accepted is value-level, not decided statically",
     "seed-C05-r4-3": "'unsigned char' re-aliased from char to uint8: the property speaks of the type char; the built-in table oracle deliberately accepts both "
                      "readings of 'unsigned char' (raw byte as the library has it, 8-bit unsigned as C has it), so no rule claims the spelling",
     "seed-C13-r5-1": "sizeof() errors re-raised as ExpressionParserError, which TokenParser._constant swallows: two cooperating sites in expression.py / parser.py, "
